@@ -47,8 +47,12 @@ def evaluate(expr, env, symmap):
         if isinstance(e, ast.BoolOp):
             vs = [ev(v) for v in e.values]
             return all(vs) if isinstance(e.op, ast.And) else any(vs)
-        if isinstance(e, ast.UnaryOp) and isinstance(e.op, ast.Not):
+        if isinstance(e, ast.UnaryOp) and isinstance(e.op, (ast.Not, ast.Invert)):
             return not ev(e.operand)
+        if isinstance(e, ast.BinOp) and isinstance(e.op, (ast.BitAnd, ast.BitOr)):
+            # element-wise boolean operators on numpy masks
+            a, b = ev(e.left), ev(e.right)
+            return (a and b) if isinstance(e.op, ast.BitAnd) else (a or b)
         if isinstance(e, ast.Compare):
             left = val(e.left)
             res = True
